@@ -52,12 +52,36 @@ func dumpCustom(tbl route.Table) string {
 	for h, rs := range tbl {
 		for i, r := range rs {
 			for _, x := range r.Targets {
-				out = append(out, fmt.Sprintf("%s|%d|%s|%s|%s|%.6f", h, i, r.Path, x.Service, x.URL, x.Weight))
+				var opts []string
+				for k, v := range x.Opts {
+					opts = append(opts, k+"="+v)
+				}
+				sort.Strings(opts)
+				out = append(out, fmt.Sprintf("%s|%d|%s|%s|%s|weight %.6f (fixed %.6f)|tags %q|opts %q", h, i, r.Path, x.Service, x.URL, x.Weight, x.FixedWeight, x.Tags, opts))
 			}
 		}
 	}
 	sort.Strings(out)
 	return strings.Join(out, "\n")
+}
+
+// marshalDefs writes the definitions the way a backend would that leaves out what is not set.
+func marshalDefs(defs []route.RouteDef) ([]byte, error) {
+	out := []map[string]any{}
+	for _, d := range defs {
+		m := map[string]any{"cmd": d.Cmd, "service": d.Service, "src": d.Src, "dst": d.Dst}
+		if d.Weight != 0 {
+			m["weight"] = d.Weight
+		}
+		if len(d.Tags) > 0 {
+			m["tags"] = d.Tags
+		}
+		if len(d.Opts) > 0 {
+			m["opts"] = d.Opts
+		}
+		out = append(out, m)
+	}
+	return json.Marshal(out)
 }
 
 func TestC02bCustomBackend(t *testing.T) {
@@ -92,15 +116,27 @@ func TestC02bCustomBackend(t *testing.T) {
 	hx.Check(t, hx.Scale(60, 2000), func(t *rapid.T) {
 		// start from a known good table
 		gen++
+		// definitions carry a weight, tags and options only now and then; a field that is
+		// not set is not in the payload (that is also what marshalling a RouteDef gives for
+		// tags and opts)
 		mk := func(g, n int) []route.RouteDef {
 			var defs []route.RouteDef
 			for i := 0; i < n; i++ {
-				defs = append(defs, route.RouteDef{Cmd: route.RouteAddCmd, Service: fmt.Sprintf("svc%d", i), Src: fmt.Sprintf("/p%d", i%3), Dst: fmt.Sprintf("http://10.%d.0.%d:80/", g%250, i)})
+				d := route.RouteDef{Cmd: route.RouteAddCmd, Service: fmt.Sprintf("svc%d", i), Src: fmt.Sprintf("/p%d", i%3), Dst: fmt.Sprintf("http://10.%d.0.%d:80/", g%250, i)}
+				switch rapid.IntRange(0, 5).Draw(t, "extras") {
+				case 0:
+					d.Weight = rapid.SampledFrom([]float64{0.25, 0.5, 0.1}).Draw(t, "weight")
+				case 1:
+					d.Tags = rapid.SampledFrom([][]string{{"a"}, {"a", "b"}, {"blue"}}).Draw(t, "tags")
+				case 2:
+					d.Opts = rapid.SampledFrom([]map[string]string{{"strip": "/p"}, {"host": "dst"}, {"allow": "ip:10.0.0.0/8", "strip": "/x"}}).Draw(t, "opts")
+				}
+				defs = append(defs, d)
 			}
 			return defs
 		}
 		good := mk(gen, rapid.IntRange(1, 4).Draw(t, "n0"))
-		b, _ := json.Marshal(good)
+		b, _ := marshalDefs(good)
 		if !waitProcessed(cs.set(200, string(b))) {
 			t.Fatalf("VERIF-INCONCLUSIVE custom backend does not poll")
 		}
@@ -126,7 +162,7 @@ func TestC02bCustomBackend(t *testing.T) {
 				}).Draw(t, "baddef")
 				defs = append(defs, bad)
 				defs = append(defs, mk(gen, 1)...)
-				bb, _ := json.Marshal(defs)
+				bb, _ := marshalDefs(defs)
 				body, valid, what = string(bb), false, fmt.Sprintf("JSON with a rejected definition %+v after %d good ones", bad, len(defs)-2)
 			case 3:
 				body, valid, what = rapid.SampledFrom([]string{"null", "[]", "[ ]"}).Draw(t, "emptyish"), true, "empty list"
@@ -135,7 +171,7 @@ func TestC02bCustomBackend(t *testing.T) {
 				}
 			default:
 				defs := mk(gen, rapid.IntRange(1, 5).Draw(t, "n"))
-				bb, _ := json.Marshal(defs)
+				bb, _ := marshalDefs(defs)
 				body, what = string(bb), fmt.Sprintf("%d good definitions (generation %d)", len(defs), gen)
 				lastGood = defs
 			}
